@@ -171,12 +171,15 @@ JV(v) == CASE v = "lit" -> [t |-> "lit", k |-> 5]
            [] v = "nil" -> [t |-> "tok", x |-> "nil"]
            [] v = "h1"  -> [t |-> "ref", k |-> 1]
            [] v = "h2"  -> [t |-> "ref", k |-> 2]
+           \* a wrapped **S (two pointer levels above the element type): assigning it stores a copy of the pointee, here {F: 6}
+           [] v = "pp"  -> [t |-> "pp", k |-> 6]
 \* the Go value stored when script value v is assigned to a cell (Export / ExportTo into the element type); ok = FALSE:
 \* the value cannot be converted (TypeError, nothing changes)
 Conv(s, v) ==
   IF IsS \/ Kind = "mss"
   THEN (CASE v.t = "ref" -> [ok |-> s.r[v.k].t \in {"slot", "copy"}, v |-> IF s.r[v.k].t \in {"slot", "copy"} THEN Deref(s, v.k) ELSE 0]
           [] v.t = "lit" -> [ok |-> TRUE, v |-> v.k]
+          [] v.t = "pp" -> [ok |-> TRUE, v |-> v.k]
           [] OTHER -> [ok |-> FALSE, v |-> 0])
   ELSE IF Kind = "msi"
   THEN (CASE v.t = "num" -> [ok |-> TRUE, v |-> v.k] [] OTHER -> [ok |-> FALSE, v |-> 0])
@@ -295,7 +298,7 @@ Done(m, lbl) == Commit(m.s, lbl @@ [res |-> m.res])
 Held(j) == r[j].t # "none"
 ArgOK(v) == CASE v = "h1" -> NH >= 1 /\ Held(1) [] v = "h2" -> NH >= 2 /\ Held(2) [] OTHER -> TRUE
 \* the values worth storing into a cell of this kind (others are conversion errors of the same class)
-Vals == CASE IsS \/ Kind = "mss" -> {"lit", "h1", "h2", "num"}
+Vals == CASE IsS \/ Kind = "mss" -> {"lit", "h1", "h2", "num", "pp"}
           [] Kind \in {"ifs", "pifs"} -> {"num", "nil", "h1", "h2"}
           [] StrictPtr -> {"nil", "h1", "h2", "num"}
           [] Kind = "msi" -> {"num"}
